@@ -24,7 +24,7 @@ PROP = dict(
                    "embedded fields: those are covered by six static types only.",
         subs=[dict(sub="scan", n_quick=800, n_thorough=30000)],
         thorough_seeds=2,
-        rule="half of the shapes repeat a field name in sibling embedded structs or repeat an embedded struct type under two parents (ambiguous promoted names, diamonds); n shapes; per shape the flattened form, the generated nesting (depth 0-5, thorough 0-8) and 1 (thorough 2) random re-nesting of "
+        rule="(tenth round) oracle scan-prop-args: a `prop` tag in the structured form `key,name=item…,flag` becomes a `value` property whose text is `${key}` and whose arguments are ALL the arguments written (plus the default Required flag), read off the tag text by the harness itself; half of the shapes repeat a field name in sibling embedded structs or repeat an embedded struct type under two parents (ambiguous promoted names, diamonds); n shapes; per shape the flattened form, the generated nesting (depth 0-5, thorough 0-8) and 1 (thorough 2) random re-nesting of "
              "the same units: leaves string/int/bool/Logger/provider pointer/interfaces, exported or unexported, untagged 22%, foreign 14%, "
              "malformed 4%, custom tag 10% (half of the custom tag texts are STRUCTURED: value + 1-3 named arguments, each a flag, 1-3 words, one bracketed group or 2-4 items mixing words and bracketed groups; groups in () [] {} hold 1-5 words separated by blanks / commas, nested up to depth 2 — oracle scan-custom-args reads value and arguments off the tag text with the harness' own reader, not the library's parser), recognised 50% over wire/func/value/prop/prefix/logger (with duplicates, shadowed prop, extra "
              "arguments); structs embedded untagged (descended), embedded tagged, embedded pointer, named, ScanGrp, ConfigurationProperties marker; "
